@@ -520,6 +520,7 @@ def check(ctx):
                                        'fields_to_pivot': 'fields matched by the current specification entry', 'f': 'comprehension variable'})])
     coupling.r11_function_steps(ctx, [u_step])
     stream.r6_identity(ctx, steps)
+    stream.r6_matcher_asked(ctx, steps)     # which resources are filtered / de-duplicated / unpivoted is decided by the selector
     stream.r6_count_agreement(ctx, steps)
     run.not_decided += ['equals / not_equals semantics on values (==), idempotence of deduplicate as a behaviour',
                         'regex back-reference substitution of unpivot keys (re.sub on values)']
